@@ -18,6 +18,7 @@ search():     the property on the real code only: event-level admissibility from
 import math, json, fractions
 import numpy as np
 from harness import impl
+from harness.props import c12_extra
 
 PROP = 'C12'
 GENERATED = ['TransmissionFacts']
@@ -87,8 +88,13 @@ def gen_cfg(rng, family=None):
     nets = []
     if family in ('plain', 'mixed', 'churn'):
         nets.append(dict(type='random', n_contacts=rng.choice([2, 3, 4]), dur=rng.choice([0, 0, 2])))
-        if rng.random() < 0.6:
+        q = rng.random()
+        if q < 0.45:
             nets.append(dict(type='static', n_contacts=rng.choice([1, 2, 3])))
+        elif q < 0.6:
+            nets.append(dict(type='hub', hubs=rng.choice([2, 5]), n_agents=n_agents))
+        if rng.random() < 0.3:
+            nets.append(rng.choice([dict(type='erdosrenyi', p=rng.choice([0.03, 0.06])), dict(type='disk', r=0.15, v=0.1)]))
     if family in ('sexual', 'mixed'):
         nets.append(dict(type=rng.choice(['mf', 'mf', 'msm']), duration=rng.choice([1, 3])))
         if rng.random() < 0.5 and not any(n['type'] == 'random' for n in nets):
@@ -127,7 +133,8 @@ def gen_cfg(rng, family=None):
 
 
 def net_key(n):
-    return dict(random='random', static='static', mf='mf', msm='msm', maternal='maternal', pool='mixingpool')[n['type']]
+    return dict(random='random', static='static', mf='mf', msm='msm', maternal='maternal', pool='mixingpool', pools='mixingpools',
+                prenatal='prenatal', postnatal='postnatal', erdosrenyi='erdosrenyi', disk='disk', hub='static')[n['type']]
 
 
 def gen_beta(rng, keys):
@@ -143,6 +150,8 @@ def gen_beta(rng, keys):
     rng.shuffle(keys)   # the user's dict order is independent of the order of sim.networks
     for k in keys:
         q = rng.random()
+        if rng.random() < 0.3:    # any spelling that standardises to the network key is accepted
+            k = rng.choice([k + 'net', k.upper(), k.capitalize() + 'Net'])
         if q < 0.25:
             entries[k] = one()
         else:
@@ -190,8 +199,20 @@ def mk_network(n):
     t = n['type']
     if t == 'pool':
         beta = ss.beta(n['beta']) if n.get('timepar') and n['beta'] <= 1 else n['beta']
+        kw = dict(diseases=n['diseases']) if n.get('diseases') else {}
         return ss.MixingPool(src=pool_group(n['src'], n.get('n_agents')), dst=pool_group(n['dst'], n.get('n_agents')), beta=beta,
-                             contacts=ss.poisson(lam=n['contacts']))
+                             contacts=ss.poisson(lam=n['contacts']), **kw)
+    if t == 'pools':     # MixingPools (plural): a rectangular array of pools between two age groups
+        a = n.get('split', 15)
+        grp = lambda: {'young': ss.AgeGroup(0, a), 'old': ss.AgeGroup(a, None)}
+        return ss.MixingPools(beta=n['beta'], src=grp(), dst=grp(), contacts=n['contacts'])
+    if t == 'prenatal': return ss.PrenatalNet()
+    if t == 'postnatal': return ss.PostnatalNet()
+    if t == 'hub':       # static bipartite graph: few low-uid hubs joined to everybody else (edges come out sorted by p1)
+        import networkx as nx
+        return ss.StaticNet(graph=nx.complete_bipartite_graph(n['hubs'], n['n_agents'] - n['hubs']))
+    if t == 'mf' and n.get('dt'):
+        return ss.MFNet(duration=ss.lognorm_ex(mean=n.get('duration', 5), std=1.0), dt=n['dt'])
     return impl._network(n, 0)
 
 
@@ -199,7 +220,10 @@ def mk_disease(d):
     import starsim as ss
     cls = dict(sir=ss.SIR, sis=ss.SIS, hiv=ss.HIV, gonorrhea=ss.Gonorrhea, syphilis=ss.Syphilis, cholera=ss.Cholera,
                ebola=ss.Ebola, measles=ss.Measles)[d['type']]
-    return cls(beta=mk_beta(d['beta']), init_prev=ss.bernoulli(d['init_prev']))
+    kw = {}
+    if d.get('log'): kw['log'] = True
+    if d.get('dt'): kw['dt'] = d['dt']
+    return cls(beta=mk_beta(d['beta']), init_prev=ss.bernoulli(d['init_prev']), **kw)
 
 
 def make_rel_intervention(rel):
@@ -207,15 +231,22 @@ def make_rel_intervention(rel):
 
     class RelFactors(ss.Intervention):
         """ Random relative susceptibility / transmissibility (with exact zeros) and edge weights, re-drawn every step """
-        def __init__(self, seed=0, p_zero=0.2, edge_beta=True, **kw):
+        def __init__(self, seed=0, p_zero=0.2, edge_beta=True, suppress=None, **kw):
             super().__init__(**kw)
             self.rs = np.random.RandomState(seed)
-            self.p_zero = p_zero; self.edge_beta = edge_beta
+            self.p_zero = p_zero; self.edge_beta = edge_beta; self.suppress = suppress
 
         def draw(self, n):
             v = self.rs.choice([0.5, 1.0, 1.0, 1.7, 2.5], size=n) * np.where(self.rs.random(n) < 0.3, self.rs.random(n), 1.0)
             v[self.rs.random(n) < self.p_zero] = 0.0
             return v
+
+        def start_step(self):
+            super().start_step()
+            if self.suppress == 'infectious':   # before the routes step: agents infected last step are suppressed too
+                for d in self.sim.diseases.values():
+                    if isinstance(d, ss.Infection):
+                        d.rel_trans[d.infectious.uids] = 0.0
 
         def step(self):
             sim = self.sim
@@ -224,11 +255,13 @@ def make_rel_intervention(rel):
                 if isinstance(d, ss.Infection):
                     d.rel_sus[au] = self.draw(len(au))
                     d.rel_trans[au] = self.draw(len(au))
+                    if self.suppress == 'infectious':     # everybody able to transmit is fully suppressed
+                        d.rel_trans[d.infectious.uids] = 0.0
             if self.edge_beta:
                 for net in sim.networks.values():
                     if isinstance(net, ss.Network) and len(net):
                         net.edges.beta[:] = self.draw(len(net.edges.beta))
-    return RelFactors(seed=rel['seed'], p_zero=rel['p_zero'], edge_beta=rel['edge_beta'])
+    return RelFactors(seed=rel['seed'], p_zero=rel['p_zero'], edge_beta=rel['edge_beta'], suppress=rel.get('suppress'))
 
 
 def build(cfg):
@@ -286,8 +319,12 @@ class Recorder:
                 return orig_infect(d)
             rec = R.snap(d)
             sim = d.sim
-            rec.update(disease=d.name, cls=type(d).__name__, ti=int(d.ti), calls=[], prog=[], routes=[])
+            rec.update(disease=d.name, cls=type(d).__name__, ti=int(d.ti), calls=[], prog=[], routes=[], timepars=[], module_dt=float(d.t.dt))
             betamap = d.validate_beta()
+            for bb in betamap.values():
+                for x in bb:
+                    if isinstance(x, ss.TimePar):
+                        rec['timepars'].append(dict(v=float(x.v), values=beta_float(x), parent_dt=float(x.parent_dt), unit=str(x.unit), parent_unit=str(x.parent_unit)))
             for i, (k, net) in enumerate(sim.networks.items()):
                 b = betamap[ss.standardize_netkey(k)]
                 bf = [beta_float(b[0]), beta_float(b[1])]
@@ -325,12 +362,16 @@ class Recorder:
                 return orig_step(d)
             R.in_step = d
             k0 = len(R.infects)
+            log0 = set(d.log.edges(keys=True)) if d.pars.get('log') else None
             try:
                 out = orig_step(d)
             finally:
                 R.in_step = None
             for rec in R.infects[k0:]:
                 if rec['disease'] == d.name:
+                    if log0 is not None:
+                        rec['log_new'] = [(s_, t_, float(k_)) for s_, t_, k_ in set(d.log.edges(keys=True)) - log0]
+                        rec['now'] = float(d.now)
                     au = np.asarray(d.sim.people.auids).astype(int)
                     n = max(rec['n'], int(au.max()) + 1 if len(au) else 0)
                     rec['sus_post'] = R.scatter(d.susceptible, au, n, bool)
@@ -350,10 +391,13 @@ class Recorder:
             n = int(mp.sim.people.uid.len_used)
             rec['contacts'] = R.scatter(mp.eff_contacts, au, n, np.float64)
             R.curpool = rec; R.pool_obj = mp
+            logs0 = {d.name: set(d.log.edges(keys=True)) for d in mp.diseases if d.pars.get('log')}
             try:
                 out = orig_pool(mp)
             finally:
                 R.curpool = None; R.pool_obj = None
+            rec['log_new'] = {d.name: [(s_, t_, float(k_)) for s_, t_, k_ in set(d.log.edges(keys=True)) - logs0[d.name]] for d in mp.diseases if d.name in logs0}
+            rec['now'] = {d.name: float(d.now) for d in mp.diseases}
             rec['src'] = np.array(mp.src_uids).astype(int); rec['dst'] = np.array(mp.dst_uids).astype(int)
             rec['ret'] = int(out) if out is not None else None
             R.pools.append(rec)
@@ -480,6 +524,14 @@ def infect_lines(rec):
             nb1 = enc_list(c1['b']) if c1 else '-'
             lines.append(f"net 1 raw {enc(r['b'][0])} {enc(r['b'][1])} {nat_list(r['p1'])} {nat_list(r['p2'])} {enc_list(r['beta'])} - {r0} {r1} {nb0} {nb1}")
     lines += ['calls', 'infect']
+    lines.append(f"outcomes {enc_list(rec['age'])}" if 'age' in rec else 'outcomes -')
+    # sexual networks: the code's beta_per_dt of every executed call against the model's double-precision net_beta
+    rec['nbf'] = []
+    for c in rec['calls']:
+        r = rec['routes'][c['route']] if 'route' in c else None
+        if r is not None and r['isnet'] and r['kind'] == 'sexual' and len(c['b']):
+            lines.append(f"netbetaf {enc(r['b'][c['dir']])} {enc(r['dt'])} {enc_list(r['beta'])} {enc_list(r['acts'])}")
+            rec['nbf'].append(c)
     return lines
 
 
@@ -521,12 +573,38 @@ def compare_infect(ctx, cfg, rec, out):
             return dict(why=f'kernel call route={key[0]} dir={key[1]}: model transmits to {mt[:12]} (sources {ms[:12]}), code returned {list(c["t_out"])[:12]} (sources {list(c["s_out"])[:12]})',
                         route=rec['routes'][key[0]]['key'])
     if dontcare:
+        rec['dontcare'] = True
         return None
     m = parse_kv(infect_line)
     mt = [int(x) for x in m['T']]; ms = [int(x) for x in m['S']]; mn = [int(x) for x in m['N']]
     ct, cs, cn = [list(map(int, x)) for x in rec['out']]
     if (mt, ms, mn) != (ct, cs, cn):
         return dict(why=f'infect(): model (targets, sources, networks) = ({mt[:12]}, {ms[:12]}, {mn[:12]}), code returned ({ct[:12]}, {cs[:12]}, {cn[:12]})')
+    # set_outcomes split and the log written by the step
+    if 'age' in rec:
+        o = parse_kv(out[4 + nroutes])
+        code_c = sorted(int(u) for e in rec['prog'] if e['kind'] == 'set_congenital' for u in e['uids'])
+        code_p = sorted(int(u) for e in rec['prog'] if e['kind'] == 'set_prognoses' for u in e['uids'])
+        if [int(x) for x in o['C']] != code_c or [int(x) for x in o['P']] != code_p:
+            return dict(why=f"set_outcomes: model hands {o['C'][:8]} to set_congenital and {o['P'][:8]} to set_prognoses, the code {code_c[:8]} and {code_p[:8]}")
+        ctx.count('outcome_splits_compared')
+        if 'log_new' in rec and rec['cls'] in ('SIR', 'SIS', 'Gonorrhea', 'Measles', 'Cholera'):
+            ml = sorted(zip((int(x) for x in o['LS']), (int(x) for x in o['LT'])))
+            cl = sorted((int(a), int(b)) for a, b, _ in rec['log_new'] if a == a)
+            if ml != cl:
+                return dict(why=f'infection log: model logs (source, target) {ml[:8]}, the code logged {cl[:8]}')
+            ctx.count('log_steps_compared')
+    # SexualNetwork.net_beta in doubles, any acts*dt
+    import struct
+    for j, c in enumerate(rec.get('nbf', [])):
+        ln = out[5 + nroutes + j]
+        if ln == 'bad-op':
+            return dict(why='model rejected a netbetaf line')
+        mv = np.array([struct.unpack('<d', struct.pack('<Q', int(x)))[0] for x in ln.split(',')]) if ln != '-' else np.zeros(0)
+        if len(mv) != len(c['b']) or not np.allclose(mv, c['b'], rtol=1e-9, atol=1e-300):
+            k = int(np.argmax(np.abs(mv - c['b']))) if len(mv) == len(c['b']) else 0
+            return dict(why=f"SexualNetwork.net_beta route={c['route']} dir={c['dir']}: model (doubles) gives {mv[k] if len(mv) else None!r} for edge {k}, the code used {c['b'][k]!r}")
+        ctx.count('sexual_netbeta_edges_compared', len(mv))
     return None
 
 
@@ -679,6 +757,58 @@ def unit_validate(ctx):
             return
 
 
+def unit_unique(ctx):
+    """ ss.uids.unique(return_index=True) on constructed target arrays vs the model's keepFirst + sort """
+    import starsim as ss
+    rng = ctx.rng
+    arrs = [[], [5], [3, 3, 7], [1, 2, 2, 2, 9, 9], [0, 0, 0, 0], [4, 1, 4, 1, 0], [2, 3, 5, 8]]
+    for _ in range(ctx.budget(20, 100)):
+        n = rng.randint(1, 14)
+        a = [rng.randint(0, 9) for _ in range(n)]
+        if rng.random() < 0.5: a.sort()
+        arrs.append(a)
+    lines = [f"unique {nat_list(a)} {nat_list(range(100, 100 + len(a)))}" for a in arrs]
+    out = ctx.drive(DRIVER, lines)
+    for a, ln, o in zip(arrs, lines, out):
+        u, idx = ss.uids(np.array(a, dtype=int)).unique(return_index=True)
+        m = parse_kv(o) if o != 'bad-op' else None
+        ctx.case(('unique', ln), nontrivial=len(set(a)) < len(a))
+        ctx.count('unique_arrays')
+        if m is None or [int(x) for x in m['T']] != [int(x) for x in u] or [int(x) for x in m['N']] != [int(x) for x in idx]:
+            ctx.broke('correspondence', 'C12.unique', f'uids({a}).unique(return_index=True) = ({list(map(int, u))}, {list(map(int, idx))}); model keepFirst+sort: {o}', data=dict(kind='unique', arr=a))
+            return
+
+
+def oracle_unique(arrs=None):
+    """ the dedup helper on the real code: sorted, duplicate-free, index of the FIRST occurrence """
+    import starsim as ss
+    fails = []
+    for a in (arrs or [[3, 3, 7], [1, 2, 2, 2, 9, 9], [0, 0, 0, 0], [4, 1, 4, 1, 0], [7], [], [2, 3, 5, 8], [5, 5]]):
+        u, idx = ss.uids(np.array(a, dtype=int)).unique(return_index=True)
+        u = [int(x) for x in u]; idx = [int(x) for x in idx]
+        want = sorted(set(a))
+        if u != want or idx != [a.index(x) for x in want]:
+            fails.append(dict(signature=dict(oracle='unique'), what=f'uids({a}).unique(return_index=True) returns {u} at {idx}: new cases reached over several edges would be reported more than once / with the wrong source (expected {want} at {[a.index(x) for x in want]})', arr=a))
+            break
+    return fails
+
+
+def unit_boundary(ctx):
+    """ the real kernel on r == p, p == 0 and one-ulp neighbours vs the model """
+    import starsim as ss
+    e = c12_extra.boundary_edges()
+    n = len(e['rt'])
+    lines = [f"state {'1' * n} {'1' * n} {enc_list(e['rs'])} {enc_list(e['rt'])}", 'clearnets',
+             f"net 1 raw 1 0 {nat_list(e['src'])} {nat_list(e['trg'])} - - {enc_list(e['r'])} - {enc_list(e['b'])} -", 'calls']
+    out = ctx.drive(DRIVER, lines)
+    t_out, s_out = ss.Infection.compute_transmission(ss.uids(e['src']), ss.uids(e['trg']), e['rt'], e['rs'], e['b'], e['r'])
+    got = f"0:0:{nat_list(np.asarray(t_out))}:{nat_list(np.asarray(s_out))}"
+    ctx.case(('boundary', tuple(lines)), nontrivial=True, sample=dict(kind='kernel-boundary', edges=len(e['src']), transmitted=len(t_out)))
+    ctx.count('boundary_edges', len(e['src']))
+    if out[3] != got:
+        ctx.broke('correspondence', 'C12.kernel-boundary', f'compute_transmission on r == p / p == 0 boundary edges: model `{out[3][:160]}` code `{got[:160]}`', data=dict(kind='boundary'))
+
+
 def parse_rat_enc(s):
     if '@' in s:
         m, e = s.split('@'); return fractions.Fraction(int(m), 2 ** int(e))
@@ -691,11 +821,14 @@ def correspond(ctx):
     ctx.notes['source_expressions'] = facts
     unit_netbeta(ctx)
     unit_validate(ctx)
-    nsims = ctx.budget(16, 120)
+    unit_unique(ctx)
+    unit_boundary(ctx)
+    nsims = ctx.budget(14, 110)
     fams = ['plain', 'sexual', 'maternal', 'pool', 'mixed', 'churn']
     stats = dict(infect_calls=0, kernel_calls=0, edges=0, transmissions=0, pool_steps=0, pool_cases=0)
-    for k in range(nsims):
-        cfg = gen_cfg(ctx.rng, fams[k % len(fams)] if k < 2 * len(fams) else None)
+    fixed = c12_extra.fixed_scenarios(ctx.seed)
+    for k in range(nsims + len(fixed)):
+        cfg = fixed[k] if k < len(fixed) else gen_cfg(ctx.rng, fams[k % len(fams)] if k < 2 * len(fams) + len(fixed) else None)
         try:
             R = run_recorded(cfg)
         except Exception as e:
@@ -842,6 +975,36 @@ def oracle_records(R, cfg):
                 if (got ^ want) - tie:
                     ex = sorted((got ^ want) - tie)[:3]
                     F('kernel-probability', f'{ktag}: kernel output differs from rel_trans[src]*rel_sus[trg]*beta_per_dt > r on (target, source) pairs {ex}')
+        # per-step value of TimePar betas must be the value for the disease's own step length
+        for tp in rec['timepars']:
+            if tp['unit'] == tp['parent_unit'] and abs(tp['parent_dt'] - rec['module_dt']) > 1e-12:
+                F('timepar-beta-dt', f"{tag}: the disease steps every {rec['module_dt']} {tp['unit']}(s) but its beta ss.beta({tp['v']}) was converted with dt={tp['parent_dt']} "
+                                     f"(per-step value {tp['values']!r} instead of {1 - (1 - tp['v']) ** rec['module_dt']!r})")
+                break
+        # congenital split and the infection log
+        if 'age' in rec:
+            age = rec['age']
+            for e in rec['prog']:
+                bad = [int(u) for u in e['uids'] if (age[u] <= 0) != (e['kind'] == 'set_congenital')]
+                if bad:
+                    F('congenital-split', f"{tag}: {e['kind']} was called for agents {bad[:5]} aged {[float(age[u]) for u in bad[:5]]} (congenital means age <= 0)")
+        if 'log_new' in rec:
+            ev = {(int(s_), int(t_)) for t_, s_ in zip(T.tolist(), S.tolist())}
+            logged = set()
+            for s_, t_, k_ in rec['log_new']:
+                if s_ != s_ or (int(s_), int(t_)) not in ev:
+                    F('log-admissible', f'{tag}: the infection log gained the entry {s_!r}->{t_!r} at {k_!r}, which is not a transmission event reported by this step')
+                elif abs(k_ - rec['now']) > 1e-9:
+                    F('log-admissible', f"{tag}: log entry {s_}->{t_} is stamped {k_!r}, the step's time is {rec['now']!r}")
+                else:
+                    logged.add(int(t_))
+            if len(rec['log_new']) != len({(a, b) for a, b, _ in rec['log_new']}):
+                F('log-admissible', f'{tag}: an event is logged twice')
+            if 'age' in rec:
+                born = [t_ for t_ in T.tolist() if rec['age'][t_] > 0]
+                missing = sorted(set(born) - logged)
+                if missing:
+                    F('log-complete', f"{tag}: logging is on, but the transmissions to agents {missing[:6]} (of {len(born)} this step) were not written to the infection log", cls=rec['cls'])
         # outcomes: everything infect() returned was given a prognosis, and nothing else
         if 'returned' in rec:
             given = np.concatenate([e['uids'] for e in rec['prog']]) if rec['prog'] else np.zeros(0, int)
@@ -885,6 +1048,11 @@ def oracle_records(R, cfg):
                     F('pool-zero', f'{tag}: new case {u} has relative susceptibility {rs[u]} and {rec["contacts"][u]} contacts'); break
                 if not srcinf:
                     F('pool-source', f'{tag}: new case {u} although no member of the source group is infectious with positive transmissibility'); break
+            if dn in rec.get('log_new', {}):
+                lg = rec['log_new'][dn]
+                lt = sorted(int(t_) for s_, t_, k_ in lg)
+                if lt != sorted(cases.tolist()) or any(s_ == s_ for s_, t_, k_ in lg) or any(abs(k_ - rec['now'][dn]) > 1e-9 for s_, t_, k_ in lg):
+                    F('pool-log', f"{tag}: log entries {lg[:4]} do not match the pool's new cases {cases.tolist()[:6]} (source unknown, time {rec['now'][dn]})")
             if k < len(rec['ppf']):
                 ppf = rec['ppf'][k]
                 if len(src) and len(ppf['p']) == len(dst):
@@ -984,13 +1152,16 @@ def pool_churn_cfg(seed, variant):
 
 
 def search(ctx):
+    for f in c12_extra.oracle_boundary():
+        ctx.fail(f['signature'], f['what'], dict(kind='boundary'))
+    for f in oracle_unique():
+        ctx.fail(f['signature'], f['what'], dict(kind='unique', arr=f['arr']))
     n = ctx.budget(8, 60)
     fams = ['plain', 'sexual', 'maternal', 'pool', 'mixed', 'churn']
     ev = dict(events=0, kernel_calls=0, pool_cases=0)
-    for k in range(n):
-        cfg = gen_cfg(ctx.rng, fams[k % len(fams)])
-        if k in (3, 4):
-            cfg = pool_churn_cfg(ctx.seed, k - 3)     # always exercised: fixed-membership pools under heavy mortality
+    fixed = c12_extra.fixed_scenarios(ctx.seed + 1) + [pool_churn_cfg(ctx.seed, 0), pool_churn_cfg(ctx.seed, 1)]
+    for k in range(n + len(fixed)):
+        cfg = fixed[k] if k < len(fixed) else gen_cfg(ctx.rng, fams[k % len(fams)])
         try:
             fails, R = oracle_run(cfg)
         except Exception as e:
@@ -1002,6 +1173,21 @@ def search(ctx):
         for f in fails:
             ctx.fail(f['signature'], f['what'], dict(kind='sim', cfg=cfg, oracle=f['signature']['oracle']))
     ctx.notes['oracle_events'] = ev
+    # the precision switch: ss.options(precision=32) (int32 / float32 everywhere).  precision=64 cannot be exercised: with
+    # float64 agent arrays multi_random.combine_rvs views 8-byte floats as uint32 and Infection.infect raises a shape error.
+    try:
+        pcfgs = [fixed[0], gen_cfg(ctx.rng, 'mixed'), gen_cfg(ctx.rng, 'pool')][:ctx.budget(2, 3)]
+        res, err = c12_extra.run_precision(pcfgs, 32)
+        if res is None:
+            ctx.broke('search', 'C12.precision', f'precision-32 subprocess failed: {err}')
+        else:
+            ctx.notes['precision_run'] = [dict(dtype=r['dtype'], events=r['events'], fails=len(r['fails'])) for r in res]
+            for cfg, r in zip(pcfgs, res):
+                ctx.count('oracle_sims_precision32')
+                for f in r['fails']:
+                                        ctx.fail(f['signature'], '[precision=32] ' + f['what'], dict(kind='sim', cfg=cfg, oracle=f['signature']['oracle'], precision=32))
+    except Exception as e:
+        ctx.broke('search', 'C12.precision', f'{type(e).__name__}: {e}')
     # monotonicity: same zero pattern (must hold)
     m = ctx.budget(5, 40); done = 0; tries = 0
     while done < m and tries < 6 * m:
@@ -1030,6 +1216,19 @@ def search(ctx):
 
 
 def replay(ctx, data):
+    if data.get('kind') == 'boundary':
+        fails = c12_extra.oracle_boundary()
+        for f in fails: print('  ', f['what'][:300])
+        return bool(fails)
+    if data.get('kind') == 'unique':
+        fails = oracle_unique([data['arr']] if data.get('arr') is not None else None)
+        for f in fails: print('  ', f['what'][:300])
+        return bool(fails)
+    if data.get('kind') == 'sim' and data.get('precision'):
+        res, err = c12_extra.run_precision([data['cfg']], data['precision'])
+        fails = res[0]['fails'] if res else []
+        for f in fails: print('  ', f['signature'], f['what'][:300])
+        return any(f['signature']['oracle'] == data.get('oracle') for f in fails)
     if data.get('kind') == 'sim':
         fails, _ = oracle_run(data['cfg'])
         want = data.get('oracle')
